@@ -422,7 +422,7 @@ def harness(ctx):
     R = vlib.REPO
     exe, log = ctx.cc('h_list', [os.path.join(vlib.VERIF, 'harness/h_list.c'), R + '/librfn/list.c'])
     if not exe:
-        raise vlib.Infra('list harness does not compile against the repo: ' + log[-1500:])
+        raise vlib.Unbuildable('list harness does not compile against the repo: ' + log[-1500:])
     return exe
 
 
@@ -622,7 +622,7 @@ def big_harness(ctx):
     R = vlib.REPO
     exe, log = ctx.cc('h_list_big', [os.path.join(vlib.VERIF, 'harness/h_list_big.c'), R + '/librfn/list.c'])
     if not exe:
-        raise vlib.Infra('large-list harness does not compile against the repo: ' + log[-1500:])
+        raise vlib.Unbuildable('large-list harness does not compile against the repo: ' + log[-1500:])
     return exe
 
 
